@@ -8,9 +8,10 @@ KEYID = {"a": 0, "b": 1, "n": 2}
 
 
 def cases(tier, seed):
-    combos = [0, 3] if tier == "quick" else [0, 1, 2, 3]
-    for combo in combos:
-        for t0 in (0.0, 10.0):
+    # all four control x calibration instantiations (four separately written branches of the header); quick: two of them from one
+    # start time only
+    for combo in [0, 1, 2, 3]:
+        for t0 in ((0.0, 10.0) if (tier != "quick" or combo in (0, 3)) else (10.0,)):
             yield {"runtime": "cpp", "combo": combo, "t0": t0, "tier": tier, "depth": 3}
     yield {"runtime": "cpp", "combo": 0, "t0": 2.0 ** 30, "tier": "quick", "depth": 2, "h": 0.125}
     yield {"runtime": "cpp", "combo": "refuse"}
